@@ -90,9 +90,25 @@ def strategy_(draw, tier):
         records = [r for r in records if not (r['kind'] == 'small' and r['tx'] == tid and
             r['g'] < g0 + len(rec['ref']) + 1 and g0 < r['g'] + len(r['ref']) + 1)]
         records.append(rec)
+    # a transcript that is read but not dispatched (intronic records only): with --threads N it
+    # takes a place in the loop over transcripts without joining a batch
+    skipped = []
+    idle = [t for t in tids if all(r['tx'] != t for r in records) and
+        len(ref.exons_gene(t)) >= 2]
+    if idle and d.chance(0.5):
+        from vf.checks.c06 import intronic_records
+        tid = d.choice(idle)
+        extra = intronic_records(d, ref, tid, d.randint(1, 2))
+        if extra:
+            records += extra
+            skipped.append(tid)
     opts = cveval.gen_opts(d, cveval.STRICT_ENZYMES, alt=True, limits=False)
     opts['min_length'] = 5
-    return dict(ref=refd, records=records, opts=opts, threads_mask=d.randint(1, 62),
+    # the console entry point cannot switch the cleavage exception off (its default is 'auto'):
+    # in-process and console runs are compared, so both use 'auto'
+    opts['exception'] = 'auto'
+    return dict(ref=refd, records=records, opts=opts, skipped=skipped,
+        threads_mask=d.randint(1, 62),
         order=d.randint(0, 10 ** 6))
 
 
@@ -108,6 +124,8 @@ def units_of(case, ref):
     for r in case['records']:
         by_tx.setdefault(r['tx'], []).append(r)
     for tid, recs in by_tx.items():
+        if tid in case.get('skipped', []):
+            continue
         if any(r['kind'] in ('small', 'as') for r in recs):
             units.append(('main', tid, tid))
         for r in recs:
@@ -235,7 +253,7 @@ def prop(case, ctx):
             return out.fail(f'failing units {names} without --skip-failed: the command '
                 'completed without an error', 'no-abort')
     # threads=3 through the console entry point
-    if ctx.tier == 'thorough' or case['order'] % 3 == 0:
+    if ctx.tier == 'thorough' or case['order'] % 3 == 0 or case.get('skipped'):
         F = tuple(i for i in range(n) if case['threads_mask'] >> i & 1)
         if F and len(F) < n:
             fail = [units[i] for i in F]
@@ -256,6 +274,8 @@ def prop(case, ctx):
                 return out.fail(f'--threads 3 without --skip-failed, failing units {names}: exit '
                     f'status {rc}, FASTA written: {exists}', 'threads-no-abort')
             out.label('threads3')
+            if case.get('skipped'):
+                out.label('threads3_with_skipped_transcript')
     nt = False
     for F in results:
         if 0 < len(F) < n:
